@@ -24,6 +24,18 @@ def run(run):
                    'order-independence of the model at every site where the code iterates a set']
     seeds = [0, 1, 2] if run.tier == 'quick' else [0, 1, 2, 3, 5, 8, 13, 21, 34, 55, 89, 'random']
     scale = 1 if run.tier == 'quick' else 4
+    # static inventory of hash-ordered iteration sites: an unlisted site does not alarm, it widens the exploration
+    import json
+    import hashsites
+    listed = json.load(open(os.path.join(VERIF, 'harness', 'hash_sites.json')))['sites']
+    found = sorted({hashsites.key(s) + ' | ' + s['how'] for s in hashsites.scan(REPO)})
+    unlisted = [f for f in found if f.split(' | ')[0] not in listed]
+    run.counters['hash-ordered iteration sites found'] = len(found)
+    run.counters['of which not in harness/hash_sites.json'] = len(unlisted)
+    if unlisted:
+        run.notes.append('unlisted hash-ordered iteration sites (more seeds and a larger corpus used): ' + '; '.join(unlisted[:8]))
+        seeds = sorted(set(seeds) | {3, 4, 5, 6, 7, 11}, key=str)
+        scale = max(scale, 2)
     outs = {}
     from concurrent.futures import ThreadPoolExecutor
     with ThreadPoolExecutor(max_workers=min(len(seeds), 12)) as ex:
